@@ -19,6 +19,8 @@ def run_tlc(module, cfg, workers=16, env=None, timeout=1800, extra=(), cwd=SPEC_
     e = dict(os.environ)
     if env:
         e.update(env)
+    # TLC's JVM creates a scratch directory under java.io.tmpdir for every run: keep it inside the directory removed below
+    e["JAVA_TOOL_OPTIONS"] = (e.get("JAVA_TOOL_OPTIONS", "") + " -Djava.io.tmpdir=" + meta).strip()
     t0 = time.time()
     try:
         p = subprocess.run(cmd, cwd=cwd, env=e, stdout=subprocess.PIPE, stderr=subprocess.STDOUT, text=True, timeout=timeout)
